@@ -10,35 +10,34 @@ Definition embed_stmt (names : list (list N)) (k : nat) (s : stmt) : node :=
   | SDecl e => NVar (nth k names []) (embed names e)
   | SSet i e => NAssign (nth i names []) [61%N] (embed names e)
   | SExpr e => embed names e
+  | SIf c t e => NIf (embed names c) (map (embed_simple names) t) (Some (map (embed_simple names) e))
   end.
 Definition wf_stmt (k : nat) (s : stmt) : bool :=
-  match s with SDecl e => wf k e | SSet i e => Nat.ltb i k && wf k e | SExpr e => wf k e end.
+  match s with
+  | SDecl e => wf k e | SSet i e => Nat.ltb i k && wf k e | SExpr e => wf k e
+  | SIf c t e => wf k c && forallb (wf_simple k) t && forallb (wf_simple k) e
+  end.
 
 Lemma embed_stmts_cons names k s r :
   embed_stmts names k (s :: r) = embed_stmt names k s :: embed_stmts names (next_k k s) r.
 Proof. destruct s; reflexivity. Qed.
 Lemma wf_stmts_cons k s r : wf_stmts k (s :: r) = wf_stmt k s && wf_stmts (next_k k s) r.
 Proof. destruct s; cbn [wf_stmts wf_stmt next_k]; rewrite ?andb_assoc; reflexivity. Qed.
-Lemma max_height_cons s r : max_height (s :: r) = Nat.max (height (stmt_exp s)) (max_height r).
+Lemma max_height_cons s r : max_height (s :: r) = Nat.max (stmt_height s) (max_height r).
 Proof. reflexivity. Qed.
-Lemma max_need_cons s r : max_need (s :: r) = Nat.max (need (stmt_exp s)) (max_need r).
+Lemma max_need_cons s r : max_need (s :: r) = Nat.max (stmt_need s) (max_need r).
 Proof. reflexivity. Qed.
 Lemma ndecls_cons k s r : next_k k s + ndecls r = k + ndecls (s :: r).
 Proof. destruct s; cbn [next_k ndecls]; lia. Qed.
 Lemma embed_is_expression names e : is_expression (embed names e) = true.
 Proof. destruct e; reflexivity. Qed.
 
-(* the variable values after one statement *)
-Definition next_rho (rho : list sval) (s : stmt) (v : sval) : list sval :=
-  match s with SDecl _ => rho ++ [v] | SSet i _ => set_nth i v rho | SExpr _ => rho end.
-Definition stmt_value (s : stmt) (v : sval) : sval := match s with SExpr _ => v | _ => VNil end.
-
 Lemma run_stmts_cons rho s r last : run_stmts rho (s :: r) last =
-  match sev rho (stmt_exp s) with
-  | inl v => run_stmts (next_rho rho s v) r (stmt_value s v)
-  | inr x => inr x
-  end.
-Proof. destruct s; reflexivity. Qed.
+  match run_stmt rho s with inl (rho', v) => run_stmts rho' r v | inr x => inr x end.
+Proof. reflexivity. Qed.
+Lemma run_simples_cons rho m r last : run_simples rho (m :: r) last =
+  match run_simple rho m with inl (rho', v) => run_simples rho' r v | inr x => inr x end.
+Proof. reflexivity. Qed.
 
 Lemma pcode_single k base s : pcode k base [s] =
   let '(c, ks) := stmt_code k base s in (c ++ (if is_expr_stmt s then [] else [opNil]), ks).
@@ -48,4 +47,39 @@ Lemma pcode_cons2 k base s s2 r2 : pcode k base (s :: s2 :: r2) =
   let '(cr, kr) := pcode (next_k k s) (base + length ks) (s2 :: r2) in
   (c ++ (if is_expr_stmt s then [opPopTop] else []) ++ cr, ks ++ kr).
 Proof. destruct s; reflexivity. Qed.
+Lemma simples_code_single base m : simples_code base [m] =
+  let '(c, ks) := simple_code base m in (c ++ (if is_expr_simple m then [] else [opNil]), ks).
+Proof. reflexivity. Qed.
+Lemma simples_code_cons2 base m m2 r2 : simples_code base (m :: m2 :: r2) =
+  let '(c, ks) := simple_code base m in
+  let '(cr, kr) := simples_code (base + length ks) (m2 :: r2) in
+  (c ++ (if is_expr_simple m then [opPopTop] else []) ++ cr, ks ++ kr).
+Proof. reflexivity. Qed.
 
+(* a statement never shortens the list of variable values; a declaration extends it by one *)
+Lemma set_nth_length i v rho : length (set_nth i v rho) = length rho.
+Proof. revert i; induction rho as [|x r IH]; intros [|i]; cbn; auto. Qed.
+Lemma nth_set_nth_same i v rho d : i < length rho -> nth i (set_nth i v rho) d = v.
+Proof. revert i; induction rho as [|x r IH]; intros [|i] H; cbn in *; try lia; [reflexivity|apply IH; lia]. Qed.
+Lemma nth_set_nth_other i j v rho d : i <> j -> nth j (set_nth i v rho) d = nth j rho d.
+Proof. revert i j; induction rho as [|x r IH]; intros [|i] [|j] H; cbn; try reflexivity; try lia. apply IH. lia. Qed.
+
+Lemma run_simple_length rho m rho' v : run_simple rho m = inl (rho', v) -> length rho' = length rho.
+Proof.
+  destruct m as [i e|e]; cbn [run_simple]; destruct (sev rho e); intros H; inversion H; subst;
+    [apply set_nth_length|reflexivity].
+Qed.
+Lemma run_simples_length : forall l rho last rho' v, run_simples rho l last = inl (rho', v) -> length rho' = length rho.
+Proof.
+  induction l as [|m r IH]; intros rho last rho' v H; [inversion H; reflexivity|].
+  rewrite run_simples_cons in H. destruct (run_simple rho m) as [[rho1 v1]|x] eqn:E; [|discriminate].
+  rewrite (IH _ _ _ _ H). exact (run_simple_length _ _ _ _ E).
+Qed.
+Lemma run_stmt_length rho s rho' v : run_stmt rho s = inl (rho', v) -> length rho' = next_k (length rho) s.
+Proof.
+  destruct s as [e|i e|e|c t e]; cbn [run_stmt next_k].
+  - destruct (sev rho e); intros H; inversion H. rewrite app_length. cbn. lia.
+  - destruct (sev rho e); intros H; inversion H. apply set_nth_length.
+  - destruct (sev rho e); intros H; inversion H. reflexivity.
+  - destruct (sev rho c); [|discriminate]. apply run_simples_length.
+Qed.
